@@ -155,9 +155,9 @@ Proof.
     rewrite c_w_eq; unfold idle_w; cbn [pc ops cur lrep closed pc_w b_w fold_right]; lia.
 Qed.
 
-Lemma tau_c_dec : forall g rcl dcl c c', tau_c g rcl dcl c = Some c' -> c_w g c' < c_w g c.
+Lemma tau_c_dec : forall g rcl dcl pk c c', tau_c g rcl dcl pk c = Some c' -> c_w g c' < c_w g c.
 Proof.
-  intros g rcl dcl c c' H. unfold tau_c in H. destruct (pc c) eqn:Hpc.
+  intros g rcl dcl pk c c' H. unfold tau_c in H. destruct (pc c) eqn:Hpc.
   - destruct (ops c) as [|o r] eqn:Hops; [discriminate|]. destruct o as [n|m|].
     + injection H as <-. pose proof (read_begin_w g c r n).
       rewrite (c_w_eq g c). rewrite Hpc, Hops, ops_w_cons. cbn [pc_w op_w]. lia.
@@ -169,8 +169,11 @@ Proof.
     rewrite !c_w_eq. unfold set_pc, idle_w. cbn [pc ops cur lrep pc_w]. rewrite Hpc. cbn [pc_w]. lia.
   - destruct rcl; [|discriminate]. injection H as <-. rewrite recv_closed_w.
     rewrite c_w_eq. rewrite Hpc. cbn [pc_w]. lia.
-  - destruct dcl; [|discriminate]. injection H as <-.
-    rewrite !c_w_eq. unfold set_pc, idle_w. cbn [pc ops cur lrep pc_w]. rewrite Hpc. cbn [pc_w]. lia.
+  - destruct dcl.
+    + injection H as <-.
+      rewrite !c_w_eq. unfold set_pc, idle_w. cbn [pc ops cur lrep pc_w]. rewrite Hpc. cbn [pc_w]. lia.
+    + destruct (ack_nb g && negb pk); [|discriminate]. injection H as <-.
+      rewrite !c_w_eq. unfold close_acked, idle_w. cbn [pc ops cur lrep pc_w]. rewrite Hpc. cbn [pc_w]. lia.
   - destruct rcl; [|discriminate]. injection H as <-.
     rewrite !c_w_eq. unfold close_return.
     match goal with |- context [idle_w g ?x] => pose proof (idle_w_le g x) end.
@@ -191,7 +194,7 @@ Lemma sync_dec : forall g rcl dcl c a c' a', sync g rcl dcl c a = Some (c', a') 
   c_w g c' + a_w a' < c_w g c + a_w a.
 Proof.
   intros g rcl dcl c a c' a' H. unfold sync in H.
-  destruct (pc c) eqn:Hpc; try discriminate; destruct a as [b rest|rest| | | |]; try discriminate.
+  destruct (pc c) eqn:Hpc; try discriminate; destruct a as [b rest|rest|rest| | | |]; try discriminate.
   - destruct dcl; [discriminate|]. injection H as <- <-. pose proof (a_next_w g rest).
     rewrite !c_w_eq. unfold set_pc, idle_w. cbn [pc ops cur lrep pc_w]. rewrite Hpc. cbn [pc_w]. lia.
   - destruct rcl; [discriminate|]. injection H as <- <-. pose proof (recv_ok_w g c b n d).
@@ -207,6 +210,7 @@ Qed.
 Lemma tau_a_dec : forall g a rcl dcl a' r' d', tau_a g a rcl dcl = Some (a', r', d') -> a_w a' < a_w a.
 Proof.
   intros g a rcl dcl a' r' d' H. unfold tau_a in H. destruct a; try discriminate.
+  - injection H as <- _ _. cbn. lia.
   - destruct (negb (initiated g) || rcl); injection H as <- _ _; cbn; lia.
   - destruct (negb (initiated g) || dcl); injection H as <- _ _; cbn; lia.
 Qed.
@@ -216,8 +220,8 @@ Proof.
   intros g s s' [H | [H | H]]; unfold mu.
   - unfold do_sync in H. destruct (sync g (rc s) (dc s) (cs s) (ap s)) as [[c' a']|] eqn:E; [|discriminate].
     injection H as <-. cbn [cs ap]. eapply sync_dec; eauto.
-  - unfold do_tau_c in H. destruct (tau_c g (rc s) (dc s) (cs s)) as [c'|] eqn:E; [|discriminate].
-    injection H as <-. cbn [cs ap]. pose proof (tau_c_dec _ _ _ _ _ E). lia.
+  - unfold do_tau_c in H. destruct (tau_c g (rc s) (dc s) (is_parked (ap s)) (cs s)) as [c'|] eqn:E; [|discriminate].
+    injection H as <-. cbn [cs ap]. pose proof (tau_c_dec _ _ _ _ _ _ E). lia.
   - unfold do_tau_a in H. destruct (tau_a g (ap s) (rc s) (dc s)) as [[[a' r'] d']|] eqn:E; [|discriminate].
     injection H as <-. cbn [cs ap]. pose proof (tau_a_dec _ _ _ _ _ _ _ E). lia.
 Qed.
